@@ -263,6 +263,51 @@ type facts struct {
 	accepted, sharingReq, nonPlain, multiAnn bool
 }
 
+// judgeUpdates submits the (mutated) pod as the new version of an update at three stages of its life - still
+// unscheduled, bound to a node, terminating - the old version being a plain pod without GPU request.
+func judgeUpdates(c *Case, p *v1.Pod, createAccepts bool) (sig, msg string) {
+	old := p.DeepCopy()
+	for _, k := range []string{"gpu-fraction", "gpu-memory", "gpu-fraction-num-devices", "gpu-fraction-container-name"} {
+		delete(old.Annotations, k)
+	}
+	stages := []struct {
+		name string
+		set  func(*v1.Pod)
+	}{
+		{"unscheduled", func(*v1.Pod) {}},
+		{"bound", func(x *v1.Pod) { x.Spec.NodeName = "node-1"; x.Status.Phase = v1.PodRunning }},
+		{"terminating", func(x *v1.Pod) {
+			x.Spec.NodeName = "node-1"
+			x.Status.Phase = v1.PodRunning
+			ts := metav1.Unix(1700000000, 0)
+			x.DeletionTimestamp = &ts
+		}},
+	}
+	for _, st := range stages {
+		o, n := old.DeepCopy(), p.DeepCopy()
+		st.set(o)
+		st.set(n)
+		var err error
+		pm := ""
+		func() {
+			defer func() {
+				if r := recover(); r != nil {
+					pm = fmt.Sprint(r)
+				}
+			}()
+			_, err = newValidator(c.Sharing).ValidateUpdate(context.Background(), o, n)
+		}()
+		if pm != "" {
+			return "panic-validate-update", fmt.Sprintf("ValidateUpdate panics for a %s pod: %s", st.name, pm)
+		}
+		if (err == nil) != createAccepts {
+			return "update-verdict-differs-from-create", fmt.Sprintf("the same pod is %s on creation but %s as an update of a %s pod (update error: %v); annotations %v",
+				map[bool]string{true: "admitted", false: "rejected"}[createAccepts], map[bool]string{true: "admitted", false: "rejected"}[err == nil], st.name, err, p.Annotations)
+		}
+	}
+	return "", ""
+}
+
 func judge(c *Case) (sig, msg string, f facts) {
 	if len(c.Containers) == 0 {
 		// a pod without containers cannot exist in the API; only totality is checked
@@ -304,6 +349,15 @@ func judge(c *Case) (sig, msg string, f facts) {
 		}
 	}
 	f.multiAnn = nAnn >= 2
+
+	// The validating webhook is registered for UPDATE as well and the GPU request lives in mutable annotations, which
+	// the scheduler re-reads for bound and running pods on every snapshot: an update that turns an admitted pod into
+	// this one must get the verdict a creation gets, at every stage of the pod's life.
+	if mutateErr == nil {
+		if usig, umsg := judgeUpdates(c, p, v.admitErr == nil); usig != "" {
+			return usig, umsg, f
+		}
+	}
 
 	// what the strings denote
 	var fracV, memV, cntV *big.Rat
